@@ -236,6 +236,8 @@ def run(eng, run):
     check_escape(eng, run, summ)
     check_conv(eng, run)
     check_inc(eng, run, summ)
+    from sa.analyses.arms import check_dead_arms
+    check_dead_arms(eng, run, "C06.arms", ("serializers", "protocol", "lowlevel._stream"), 10)
     run.tables["raise_table"] = RAISE_TABLE
 
 
